@@ -2169,6 +2169,11 @@ func opcodeCheckMultiSig(op *ParsedOpcode, t *thread) error {
 	script := t.subScript()
 
 	for _, sigInfo := range signatures {
+		if len(sigInfo.signature) == 0 {
+			// every push "contains" the empty string: an empty placeholder
+			// signature must not strip all data pushes from the script code
+			continue
+		}
 		script = script.removeOpcodeByData(sigInfo.signature)
 		script = script.removeOpcode(bscript.OpCODESEPARATOR)
 	}
@@ -2197,7 +2202,11 @@ func opcodeCheckMultiSig(op *ParsedOpcode, t *thread) error {
 
 		rawSig := sigInfo.signature
 		if len(rawSig) == 0 {
-			// Skip to the next pubkey if signature is empty.
+			// Skip to the next pubkey if signature is empty; the key it is
+			// paired with must still respect the encoding the flags demand.
+			if err := t.checkPubKeyEncoding(pubKey); err != nil {
+				return err
+			}
 			continue
 		}
 
